@@ -22,8 +22,8 @@ type Metric struct {
 	Base  string // v3 Modified metrics: the name of the base metric it falls back to
 }
 
-func c(code, w string) Code   { return Code{Code: code, W: w} }
-func nd(code, w string) Code  { return Code{Code: code, W: w, ND: true} }
+func c(code, w string) Code      { return Code{Code: code, W: w} }
+func nd(code, w string) Code     { return Code{Code: code, W: w, ND: true} }
 func pr(code, u, ch string) Code { return Code{Code: code, W: u, WC: ch} }
 
 // V3 lists the 22 CVSS v3 metrics in canonical vector order.
